@@ -454,17 +454,34 @@ def rule_emit(facts, rep):
     wl = [hir.while_loop(x) for x in hir.walk(n["hir"]) if x.get("k") == "loop" and x.get("src") == "While"]
     ok = len(wl) == 1 and hir.is_call(hir.simp(wl[0][0]), "Option::<T>::is_none") and hir.place_str(hir.simp(wl[0][0])["args"][0]) == "capture.ready"
     rep.check(ok, "emit", n["path"], "scan-until-run-ready", "", loc(n))
-    lets = {s["pat"]["name"]: s["init"] for s in hir.stmts_of(n["hir"]) if s.get("k") == "let" and s["pat"].get("k") == "pbind"}
-    sty = hir.simp(lets.get("style", {}))
-    ok = hir.is_call(sty, "Option::<T>::unwrap_or") and hir.place_str(sty["args"][0]) == "capture.ready" and hir.place_str(sty["args"][1]) == "capture.style"
-    rep.check(ok, "emit", n["path"], "yielded-style-is-ready-or-current", "", loc(n))
-    tail = hir.simp(hir.stmts_of(n["hir"])[-1])
-    ok = False
-    if tail.get("ctor", "").endswith("Option::Some"):
-        t = hir.simp(tail["args"][0])
-        if t.get("k") == "tuple" and len(t["es"]) == 2:
-            tk = hir.simp(t["es"][1])
-            ok = hir.is_local(t["es"][0], "style") and hir.is_call(tk, "core::mem::take") and hir.place_str(tk["args"][0]) == "capture.printable"
-    rep.check(ok, "emit", n["path"], "yields-(style,take(printable))", "the pending text is handed over exactly once", loc(n))
+    O = hir.Origins(n["hir"])
+    somes = [x for x in hir.walk(n["hir"]) if x.get("k") == "call" and x.get("ctor", "").endswith("Option::Some") and hir.simp(x["args"][0]).get("k") == "tuple"
+             and len(hir.simp(x["args"][0])["es"]) == 2]
+    ok_style = ok_take = False
+    if len(somes) == 1:
+        t = hir.simp(somes[0]["args"][0])
+        sty, sproj = O.of(t["es"][0])
+        # capture.ready.unwrap_or(capture.style), or the same thing as a match / if let on capture.ready
+        if hir.is_call(sty, "Option::<T>::unwrap_or") and not sproj:
+            ok_style = hir.place_str(sty["args"][0]) == "capture.ready" and hir.place_str(sty["args"][1]) == "capture.style"
+        elif sty.get("k") in ("match", "if"):
+            vals = O._branch_values(sty) or []
+            kinds = set()
+            for v in vals:
+                o, pr = O.of(v)
+                if hir.place_str(o) == "capture.ready" and pr == ("Some",):
+                    kinds.add("ready")
+                elif hir.place_str(o) == "capture.style" and not pr:
+                    kinds.add("style")
+                else:
+                    kinds.add("?")
+            scr = hir.simp(sty["scrut"]) if sty.get("k") == "match" else hir.simp(hir.simp(sty["c"]).get("init", {}))
+            ok_style = kinds == {"ready", "style"} and hir.place_str(scr) == "capture.ready"
+        tk, tproj = O.of(t["es"][1])
+        ok_take = hir.is_call(tk, "core::mem::take") and hir.place_str(tk["args"][0]) == "capture.printable" and not tproj
+        takes = [x for x in hir.walk(n["hir"]) if hir.is_call(x, "core::mem::take", "core::mem::replace")]
+        ok_take = ok_take and len(takes) == 1
+    rep.check(ok_style, "emit", n["path"], "yielded-style-is-ready-or-current", "", loc(n))
+    rep.check(ok_take, "emit", n["path"], "yields-(style,take(printable))", "the pending text is handed over exactly once", loc(n))
     emp = [x for x in hir.stmts_of(n["hir"]) if hir.simp(x).get("k") == "if" and hir.is_call(hir.simp(hir.simp(x)["c"]), "String::is_empty")]
     rep.check(len(emp) == 1 and hir.diverges(hir.simp(emp[0])["t"]), "emit", n["path"], "None-when-no-text", "", loc(n))
